@@ -93,9 +93,27 @@ func c09Collision(r *Rng, forced int) c09WS {
 		case 2:
 			return c09CrossFileMembers(r)
 		}
-		forced = r.Intn(10)
+		forced = r.Intn(11)
 	}
-	switch forced % 10 {
+	switch forced % 11 {
+	case 10: // global functions with annotated parameters, called with too few arguments from their own file and from many others
+		files := map[string]string{}
+		var lib strings.Builder
+		nf := r.Range(1, 3)
+		for k := 0; k < nf; k++ {
+			fmt.Fprintf(&lib, "---@param a number\n---@param b %s\n%sfunction lib_add%d(a, b%s)\n  return a\nend\n\n", r.Pick([]string{"number", "string|nil", "number"}),
+				r.Pick([]string{"", "---@param c number\n"}), k, r.Pick([]string{"", ", c"}))
+			fmt.Fprintf(&lib, "function lib_twice%d(a)\n  return lib_add%d(a)\nend\n", k, k)
+		}
+		files["lib.lua"] = lib.String()
+		nu := r.Range(3, 8)
+		if r.Chance(1, 3) {
+			nu = r.Range(30, 60)
+		}
+		for i := 0; i < nu; i++ {
+			files[fmt.Sprintf("%s/user%d.lua", r.Pick([]string{"a", "b"}), i)] = fmt.Sprintf("%sfunction user%d_run(x)\n  return lib_add%d(x), lib_add%d()\nend\n", strings.Repeat("\n", r.Intn(4)), i, r.Intn(nf), r.Intn(nf))
+		}
+		return c09WS{"annotated-function-called-short-from-many-files", files}
 	case 9: // a workspace of many more files than the machine has processors, of very different sizes, whose symbol names share fragments
 		files := map[string]string{}
 		nf := r.Range(30, 60)
@@ -272,7 +290,7 @@ func c09Observe(c *Ctx, w c09WS, run int, r *Rng, tag string) ([]string, error) 
 			if t.K != TName && !(t.K == TString && !t.Long) {
 				continue
 			}
-			if n >= 12 || (w.Kind == "wide-workspace" && n >= 2) {
+			if n >= 12 || ((w.Kind == "wide-workspace" || len(w.Files) > 20) && n >= 2) {
 				break
 			}
 			n++
@@ -415,7 +433,7 @@ func runC09(c *Ctx) {
 	}
 	for i := 0; i < nColl; i++ {
 		forced := -1
-		if i < 30 {
+		if i < 33 {
 			forced = i // three of each hand-written kind first
 		}
 		wss = append(wss, c09Collision(root.Fork(uint64(100000+i)), forced))
